@@ -70,6 +70,7 @@ type Version struct {
 	Tags        string `json:"tags,omitempty"`
 	Blocked     bool   `json:"blocked,omitempty"`
 	DerivedFrom string `json:"derived_from,omitempty"`
+	Registries  string `json:"registries,omitempty"` // Maven: "default:URL|dep:URL|URL" (version.Registries)
 	Reqs        []Req  `json:"reqs,omitempty"`
 }
 
@@ -146,6 +147,9 @@ func (u *Universe) mkVersion(v Version) (resolve.Version, []resolve.RequirementV
 	}
 	if v.DerivedFrom != "" {
 		rv.SetAttr(version.DerivedFrom, v.DerivedFrom)
+	}
+	if v.Registries != "" {
+		rv.SetAttr(version.Registries, v.Registries)
 	}
 	var rs []resolve.RequirementVersion
 	for _, q := range v.Reqs {
